@@ -4,6 +4,7 @@ import (
 	"fmt"
 	"go/token"
 	"go/types"
+	"strings"
 
 	"verif/checker/internal/interp"
 	"verif/checker/internal/load"
@@ -100,10 +101,18 @@ func lookupTable(c *Ctx) {
 			}
 			scope := &interp.Opaque{Kind: "types.Scope", ID: "scope", GoType: "*go/types.Scope", Methods: mmap{"Lookup": tmeth(obj)}}
 			pkg := &interp.Opaque{Kind: "types.Package", ID: "src", GoType: "*go/types.Package", Methods: mmap{"Scope": tmeth(scope)}, Attrs: map[string]interp.Value{"path": interp.Lit("example.test/src"), "name": interp.Lit("src")}}
-			rt := prog.ByPath[load.PkgRegistry].Types.Scope().Lookup("Registry")
-			reg := m.Zero(rt.Type()).(*interp.Struct)
-			reg.Fields["srcPkgTypes"] = pkg
-			return m.CallFunc(token.NoPos, fn, reg, []interp.Value{interp.Tok("ƗX")})
+			// the registry is the one registry.New builds around this go/types package
+			w, err := newRegWorldWith(prog, nil, "", pkg)
+			if err != nil {
+				return nil, err
+			}
+			for k, v := range m.Ext {
+				if _, has := w.m.Ext[k]; !has || strings.HasPrefix(k, "go/types.") {
+					w.m.Ext[k] = v
+				}
+			}
+			w.m.Choices = m.Choices
+			return w.m.CallFunc(token.NoPos, fn, w.reg, []interp.Value{interp.Tok("ƗX")})
 		})
 		ok := true
 		detail := ""
@@ -274,39 +283,15 @@ func representativeTable(c *Ctx) {
 	run.Floor("G-REPR/table", 5)
 }
 
-// parseTable: decision table of the argument parser "Interface[:Name]".
+// parseTable: decision table of the argument form "Interface[:Name]", read off (*Mocker).Mock itself
+// (engine M): the name the registry is asked for and the two names the template data carries, for an
+// argument given as a symbolic string. Where and how the argument is split is free.
 func parseTable(c *Ctx) {
 	run, prog := c.Run, c.Prog
-	// by role: the one function of pkg/moq that turns a string into two strings
-	var fn *types.Func
-	if pk := prog.ByPath[load.PkgMoq]; pk != nil {
-		n := 0
-		sc := pk.Types.Scope()
-		for _, name := range sc.Names() {
-			f, ok := sc.Lookup(name).(*types.Func)
-			if !ok {
-				continue
-			}
-			sig := f.Type().(*types.Signature)
-			isStr := func(t types.Type) bool {
-				b, ok := t.Underlying().(*types.Basic)
-				return ok && b.Kind() == types.String
-			}
-			if sig.Params().Len() == 1 && sig.Results().Len() == 2 && isStr(sig.Params().At(0).Type()) && isStr(sig.Results().At(0).Type()) && isStr(sig.Results().At(1).Type()) {
-				fn = f
-				n++
-			}
-		}
-		if n != 1 {
-			fn = prog.LookupFunc(load.PkgMoq, "parseInterfaceName")
-		}
+	pos := "pkg/moq/moq.go"
+	if fn := prog.LookupFunc(load.PkgMoq, "Mocker.Mock"); fn != nil {
+		pos = prog.Pos(fn.Pos())
 	}
-	if fn == nil {
-		run.Undecided("G-PARSE", "role", "pkg/moq/moq.go", "parseInterfaceName not found")
-		return
-	}
-	pos := prog.Pos(fn.Pos())
-	I, N, X := interp.Tok("Ɨ"), interp.Tok("Ɯ"), interp.Tok("ƶ")
 	colon := interp.Lit(":")
 	cat := func(parts ...*interp.Sym) *interp.Sym {
 		out := &interp.Sym{}
@@ -315,38 +300,51 @@ func parseTable(c *Ctx) {
 		}
 		return out
 	}
+	N, X := interp.Tok("Ɯ"), interp.Tok("ƶ")
 	cases := []struct {
-		desc        string
-		in          *interp.Sym
-		iface, mock string
+		desc string
+		arg  func(I *interp.Sym) *interp.Sym
+		mock func(iface string) string
 	}{
-		{"Interface", I, "Ɨ", "ƗMock"},
-		{"Interface:Name", cat(I, colon, N), "Ɨ", "Ɯ"},
-		{"Interface:Name:more (split at the first colon only)", cat(I, colon, N, colon, X), "Ɨ", "Ɯ:ƶ"},
+		{"Interface", func(I *interp.Sym) *interp.Sym { return I }, func(iface string) string { return iface + "Mock" }},
+		{"Interface:Name", func(I *interp.Sym) *interp.Sym { return cat(I, colon, N) }, func(string) string { return "Ɯ" }},
+		{"Interface:Name:more (split at the first colon only)", func(I *interp.Sym) *interp.Sym { return cat(I, colon, N, colon, X) }, func(string) string { return "Ɯ:ƶ" }},
 	}
 	for _, tc := range cases {
-		m := interp.New(prog)
-		got, err := m.CallFunc(token.NoPos, fn, nil, []interp.Value{tc.in})
-		if err == nil && m.Choices.Forked() {
-			err = fmt.Errorf("the parse depends on something the symbolic argument does not fix (%s)", m.Choices.Describe())
-		}
-		if err != nil {
-			run.Undecided("G-PARSE/table", tc.desc, pos, "parseInterfaceName cannot be evaluated: "+err.Error())
+		model := tmpl.BuildModel(tmpl.Env{Mocks: []tmpl.MockShape{{Aliased: true, Methods: []tmpl.MethodShape{{}}}}})
+		if len(model.Mocks) != 1 {
+			run.Undecided("G-PARSE/table", tc.desc, pos, "the abstract package has no single-interface model")
 			continue
 		}
-		t, _ := got.(interp.Tuple)
-		ok := len(t) == 2
-		gi, gm := "?", "?"
-		if ok {
-			if s, isS := t[0].(*interp.Sym); isS {
-				gi = s.Flat()
-			}
-			if s, isS := t[1].(*interp.Sym); isS {
-				gm = s.Flat()
-			}
-			ok = gi == tc.iface && gm == tc.mock
+		iface := model.Mocks[0].IfaceName
+		model.Mocks[0].Arg = tc.arg(interp.Tok(iface))
+		model.Mocks[0].MockName = tc.mock(iface)
+		dvs, err := tmpl.Derive(prog, model, "")
+		if err != nil {
+			run.Undecided("G-PARSE/table", tc.desc, pos, "(*Mocker).Mock cannot be interpreted on this argument: "+err.Error())
+			continue
 		}
-		run.Check("G-PARSE/table", tc.desc, pos, ok, fmt.Sprintf("the argument %q is parsed as interface %q, mock %q; want %q and %q (the mock is named <Interface>Mock, or exactly what follows the first colon)", tc.in.Flat(), gi, gm, tc.iface, tc.mock))
+		ok, n := true, 0
+		gi, gm, gl := "?", "?", "?"
+		for _, dv := range dvs {
+			i, m, lookups, has := tmpl.MockNamesOf(dv, 0)
+			if !has {
+				continue
+			}
+			n++
+			l := strings.Join(lookups, ",")
+			if i != iface || m != tc.mock(iface) || l != iface {
+				ok = false
+			}
+			if n == 1 || !ok {
+				gi, gm, gl = i, m, l
+			}
+		}
+		if n == 0 {
+			run.Undecided("G-PARSE/table", tc.desc, pos, "no path through (*Mocker).Mock reaches the template with this argument")
+			continue
+		}
+		run.Check("G-PARSE/table", tc.desc, pos, ok, fmt.Sprintf("the argument %q looks up %q and yields interface %q, mock %q; want %q looked up and named, and mock %q (the mock is named <Interface>Mock, or exactly what follows the first colon)", model.Mocks[0].Arg.Flat(), gl, gi, gm, iface, tc.mock(iface)))
 	}
 	run.Floor("G-PARSE/table", 3)
 }
